@@ -75,13 +75,24 @@ class Runtime:
         class VLock:
             def __init__(self):
                 self.locked_by = None
+                # the internal mutex of ShareableProcessLock is held across lockf calls: its
+                # acquisition is always a scheduling point (so that the process-level regions are
+                # separate steps); pool mutexes are not
+                fr = sys._getframe(1)
+                owner = fr.f_locals.get("self")
+                self.is_point = type(owner).__name__ == "ShareableProcessLock"
 
             def acquire(self, blocking=True, timeout=-1):
                 vt = rt.cur()
                 # A plain mutex protects a short region; regions on different mutexes commute, so a free
                 # mutex is taken without a scheduling point.  It is held across a scheduling point only
                 # by a thread blocked in lockf (ShareableProcessLock): then others park here.
-                if self.locked_by is not None:
+                if self.is_point:
+                    rt.point(vt, ("acq", self, bool(blocking)), (lambda: self.locked_by is None) if blocking else (lambda: True))
+                    if self.locked_by is not None:
+                        assert not blocking
+                        return False
+                elif self.locked_by is not None:
                     if not blocking:
                         return False
                     rt.point(vt, ("acq", self, True), lambda: self.locked_by is None)
